@@ -223,6 +223,11 @@ func runByz(e *Env) {
 			}
 			m.fired = true
 			out, cls, desc := byzMutate(tp, sc, m.kind, frame)
+			if len(frame) > 1<<20 {
+				// a frame of megabytes: building it, copying it for the mutation and growing
+				// the connection's buffer are the simulator's allocations, several times its size
+				byzDiscarded += int64(len(frame))
+			}
 			if len(out) < len(frame) {
 				// the node built this frame (the simulator's own allocations, inside the
 				// bubble) and the mutation then put a shorter one in its place
@@ -632,7 +637,8 @@ func runByz(e *Env) {
 	byzFinish(k, cl, sess, &ms0, compress)
 }
 
-// byzDiscarded: bytes of frames the node built and a mutation replaced by something shorter
+// byzDiscarded: bytes of frames the node built and a mutation replaced by something shorter,
+// plus the size of every mutated frame above 1 MiB (the simulator's own share of the allocations)
 // (root goroutine only; reset at the start of every run).
 var byzDiscarded int64
 
@@ -898,7 +904,13 @@ func byzMutate(tp *kernel.Tape, sc *node.SConn, kind int, frame []byte) (out []b
 		b = append(b, f[hs-4:]...)
 		return b, false, "foreign-header"
 	default: // garbage body behind a plausible header
-		for i := hs; i < len(f); i++ {
+		// (of a frame of many megabytes only the first 64 KiB are garbled: one tape value
+		// per byte would make the tape itself the largest allocation of the run)
+		end := len(f)
+		if end-hs > 1<<16 {
+			end = hs + 1<<16
+		}
+		for i := hs; i < end; i++ {
 			f[i] = byte(tp.Next(256))
 		}
 		return f, false, "garbage-body"
